@@ -32,8 +32,12 @@ MANIFEST = dict(
          'nnvg, NumPy) are run on the same operation sequences and compared on accept/raise and on the complete object state after every '
          'operation, on to_builtin/update_from_builtin round trips (state and serialization), and `_MODEL_` is compared with the source model '
          'for every type.',
-    note='PARTIAL: `_MODEL_` equality (pickle/gzip/base85 are library behaviour) and the builtin round trip of nested types are covered by '
-         'correspondence only, not by a theorem.  Trusted: Coq kernel; the scanner and the pick_width translator (tools/translators/gen_c18.py); '
+    note='PARTIAL: `_MODEL_` equality (pickle/gzip/base85 are library behaviour) is covered by correspondence only.  The builtin round trip '
+         'is a theorem for all types (nested composites, arrays of composites, float16/32 arrays) under decidable premises each shown '
+         'necessary by a counterexample; one of them -- float16/32 array elements are representable in their storage type -- is true of '
+         'everything NumPy stores but is not proved for reachable model states (needs idempotence of the rounding model) and is validated by '
+         'the correspondence run.  Elements of composite arrays are not isinstance-checked by the template (stated as a theorem, outside the '
+         'property text).  The support-library functions are tied by a shape pin, not translated.  Trusted: Coq kernel; the scanner and the pick_width translator (tools/translators/gen_c18.py); '
          'the hand model of NumPy conversion (np.array/flatten, rounding to float16/32, int()/float()/bool()) which is validated by the '
          'correspondence run, not verified; extraction (ExtrOcamlBasic only) + ocaml/c18_driver.ml; tools/harness/c18_impl.py and the codec '
          'harness Python target.  Model domain: strings/bytes handed to numeric conversions are non-numeric text, nesting of list arguments is '
